@@ -52,6 +52,7 @@ type c08call struct {
 	getSubs        []int      // GetSubscriptionMessages(id) after the call (and what follows it)
 	writeFail      bool       // the client's first write of this call fails: the request never leaves
 	writeFailFinal bool       // 1.1: the final return (third write) fails: the server has the request, the call fails
+	marker         bool       // the payload carries the other version's end-of-message marker as data
 }
 
 // c08notif is one unsolicited message. sub = the subscription it belongs to (0: none); msgid != 0:
@@ -610,6 +611,77 @@ func c08AddRouting(p *c08plan, h *vlib.Rng, thorough bool) {
 	}
 }
 
+// c08InsertMarker puts the OTHER version's end-of-message marker into a reply payload as data:
+// `]]>]]>` into a 1.1 payload (comment, attribute-like text, CDATA, processing instruction),
+// a line that is exactly `##` into a 1.0 payload. pos: 0 right after the opening tag, 1 right
+// before the closing tag, 2 after the root element. Returns the payload and the offset of the
+// marker (-1: payload shape not recognised).
+func c08InsertMarker(payload []byte, v11 bool, pos, form int) ([]byte, int) {
+	i := bytes.Index(payload, []byte(`message-id="`+c08IDToken+`"`))
+	if i < 0 {
+		return payload, -1
+	}
+	gt := bytes.IndexByte(payload[i:], '>')
+	cl := bytes.LastIndex(payload, []byte("</"))
+	if gt < 0 || cl < i+gt {
+		return payload, -1
+	}
+	marker := "]]>]]>"
+	if !v11 {
+		marker = "\n##\n"
+	}
+	var ins string
+	switch form % 4 {
+	case 0:
+		ins = "<!-- " + marker + " -->"
+	case 1:
+		ins = "<note>end of data " + marker + "</note>"
+	case 2:
+		ins = "<![CDATA[x" + marker + "y]]>"
+	default:
+		ins = "<?marker " + marker + "?>"
+	}
+	at := i + gt + 1
+	switch pos % 3 {
+	case 1:
+		at = cl
+	case 2:
+		at = len(payload)
+		if form%4 == 1 || form%4 == 2 {
+			ins = "<?marker " + marker + "?>" // only comments and PIs may follow the root element
+		}
+	}
+	out := append(append(append([]byte{}, payload[:at]...), ins...), payload[at:]...)
+	return out, at + strings.Index(ins, marker)
+}
+
+// c08AddMarkers: own random stream. About one call in eight carries the other version's marker
+// as data; in 1.1 sometimes with a chunk boundary inside the marker.
+func c08AddMarkers(p *c08plan, h *vlib.Rng) {
+	for k := range p.calls {
+		c := &p.calls[k]
+		if !h.Chance(1, 8) || c.subID != 0 || len(c.payload) > 50000 {
+			continue
+		}
+		out, at := c08InsertMarker(c.payload, p.v11, h.Intn(3), h.Intn(4))
+		if at < 0 {
+			continue
+		}
+		c.payload = out
+		c.marker = true
+		if p.v11 {
+			switch h.Intn(3) {
+			case 0:
+				c.chunks = c08KeepIDWhole(c.payload, []int{at - 3 + h.Range(1, 5), 1 << 30}) // the token is 3 bytes longer than the id
+			case 1:
+				if len(c.chunks) > 0 {
+					c.chunks = c08KeepIDWhole(c.payload, c.chunks)
+				}
+			}
+		}
+	}
+}
+
 func c08HistoryPlan(name string, v11 bool, echo int, spec []int) c08plan {
 	// spec: per call 4 numbers: mode, timeoutMs (0 = driver TimeoutOps), idleFactor
 	p := c08plan{name: name, v11: v11, echo: echo, seg: []int{1 << 20}, opsMs: 150}
@@ -656,6 +728,18 @@ func c08Directed(name string) (c08plan, bool) {
 	}
 	stdPayload := func(extra string) []byte { return []byte(c08StdOpen + "<ok/>" + extra + "</rpc-reply>") }
 	switch name {
+	case "v11-payload-contains-v10-delimiter", "v10-payload-contains-hash-hash-line":
+		v11 := name == "v11-payload-contains-v10-delimiter"
+		p := mkCalls(c08plan{name: name, v11: v11, echo: sim.C08EchoSep}, 0, 0, 0, 0, 1, 0)
+		for k := range p.calls {
+			out, at := c08InsertMarker(stdPayload(""), v11, k, k+1)
+			p.calls[k].payload, p.calls[k].marker = out, true
+			if v11 && k == 3 {
+				p.calls[k].chunks = []int{at, 1 << 30} // a chunk boundary inside the marker (the token is 3 bytes longer than the id)
+			}
+		}
+		p.calls[5].before = []int{4}
+		return p, true
 	case "id-after-1000-bytes-of-xmlns-10", "id-after-1000-bytes-of-xmlns-11", "id-after-5000-bytes-of-xmlns-11", "id-on-nc-prefixed-reply", "id-after-40-attributes":
 		p := mkCalls(c08plan{name: name, v11: !strings.HasSuffix(name, "-10")}, 0, 1, 0)
 		kind := map[string]int{"id-after-1000-bytes-of-xmlns-10": 3, "id-after-1000-bytes-of-xmlns-11": 3, "id-after-5000-bytes-of-xmlns-11": 4, "id-on-nc-prefixed-reply": 5, "id-after-40-attributes": 2}[name]
@@ -812,7 +896,7 @@ func c08Directed(name string) (c08plan, bool) {
 	return c08plan{}, false
 }
 
-var c08DirectedNames = []string{"id-after-1000-bytes-of-xmlns-10", "id-after-1000-bytes-of-xmlns-11", "id-after-5000-bytes-of-xmlns-11", "id-on-nc-prefixed-reply",
+var c08DirectedNames = []string{"v11-payload-contains-v10-delimiter", "v10-payload-contains-hash-hash-line", "id-after-1000-bytes-of-xmlns-10", "id-after-1000-bytes-of-xmlns-11", "id-after-5000-bytes-of-xmlns-11", "id-on-nc-prefixed-reply",
 	"id-after-40-attributes", "search-depth-tiny-10", "search-depth-tiny-11", "search-depth-huge", "read-size-64-read-delay-10us", "return-char-crlf-10",
 	"reply-of-300-kilobytes-10", "reply-of-300-kilobytes-11", "notif-interleaved-10", "notif-interleaved-11", "notif-with-old-message-id-text", "notif-with-live-message-id-text", "id-single-quotes",
 	"id-spaces-around-equals", "ids-beyond-1000", "write-failure-consumes-id", "final-return-write-fails-11", "read-fault-midsession", "late-replies-out-of-order",
@@ -1425,6 +1509,7 @@ func runC08(c *ctx) {
 			c08AddMatrix(&pp, vlib.NewRng(seed^0x27d4eb2f165667c5))
 			c08AddCoverage(&pp, vlib.NewRng(seed^0x94d049bb133111eb))
 			c08AddRouting(&pp, vlib.NewRng(seed^0xd6e8feb86659fd93), c.thorough())
+			c08AddMarkers(&pp, vlib.NewRng(seed^0xa0761d6478bd642f))
 			pp.name = fmt.Sprintf("seed-%d", seed)
 			jobs = append(jobs, job{c.replay, pp})
 		}
@@ -1445,6 +1530,7 @@ func runC08(c *ctx) {
 			c08AddMatrix(&p, vlib.NewRng(seed^0x27d4eb2f165667c5))
 			c08AddCoverage(&p, vlib.NewRng(seed^0x94d049bb133111eb))
 			c08AddRouting(&p, vlib.NewRng(seed^0xd6e8feb86659fd93), c.thorough())
+			c08AddMarkers(&p, vlib.NewRng(seed^0xa0761d6478bd642f))
 			p.name = fmt.Sprintf("seed-%d", seed)
 			jobs = append(jobs, job{fmt.Sprintf("c08 plan %d %d", seed, mc), p})
 		}
@@ -2058,6 +2144,9 @@ func runC08(c *ctx) {
 			}
 			if cl.subID != 0 {
 				res.Count("reply-carrying-subscription-id")
+			}
+			if cl.marker {
+				res.Count("reply-with-the-other-version's-marker-as-data:v" + ver)
 			}
 			if cl.writeFail {
 				res.Count("history:client-write-fails")
